@@ -1261,10 +1261,10 @@ func (s *Scanner) switchToComment() {
 
 func stateAnyCommentStart(s *Scanner, c byte) state {
 	if c != '#' {
-		// any symbol inline user comment
+		// any symbol inline user comment; the end of the line ends an empty one too
 		s.annotation = annotationNone
 		s.step = stateInlineComment
-		return scanContinue
+		return s.step(s, c)
 	} else if s.index < s.dataSize && s.data.Byte(s.index) == '#' { // third #
 		s.annotation = annotationNone
 		s.step = stateMultiLineComment
